@@ -54,6 +54,7 @@ type pController struct {
 	NoEmbed bool      `json:"noEmbed,omitempty"` // a plain struct that does NOT embed GleeceController
 	Grouped bool      `json:"grouped,omitempty"` // declared inside a documented `type ( ... )` group
 	Unglobbed bool    `json:"unglobbed,omitempty"` // lives in a file no controllerGlob matches: must never contribute
+	FieldFirst bool   `json:"fieldFirst,omitempty"` // another package-qualified field is declared BEFORE the GleeceController embed
 }
 
 type pField struct {
@@ -254,7 +255,11 @@ func writeProject(p pProject, dir string) (map[string]string, error) {
 		} else if c.NoEmbed {
 			sb.WriteString(ind + "type " + c.Name + " struct {\n" + ind + "\tX int\n" + ind + "}\n")
 		} else {
-			sb.WriteString(ind + "type " + c.Name + " struct {\n" + ind + "\truntime.GleeceController\n" + ind + "}\n")
+			extra := ""
+			if c.FieldFirst {
+				extra = ind + "\tstarted time.Time\n" // a controller is a controller wherever the embed stands
+			}
+			sb.WriteString(ind + "type " + c.Name + " struct {\n" + extra + ind + "\truntime.GleeceController\n" + ind + "}\n")
 		}
 		fb.decls = append(fb.decls, sb.String())
 		for _, m := range c.Methods {
